@@ -239,6 +239,11 @@ def run_driver(sub, items, profile="dev", shards=None, timeout=300, tag="run", e
             stats["aborted"] += len(st["aborted"])
             stats["timed_out"] += 1 if st["timed_out"] else 0
             stats["killed"] += 1 if st.get("killed") else 0
+    # aged jobs (see diff.age): the records of the failing forms evaluated before the judged workload are dropped here
+    for item, rec in zip(items, out):
+        if isinstance(item, dict) and item.get("_aged") and rec and "steps" in rec:
+            rec["aged_steps"] = item["_aged"]
+            rec["steps"] = rec["steps"][item["_aged"]:]
     if stats["killed"]:
         raise Inconclusive("%d driver process(es) were killed from outside three times (SIGKILL: out of memory on the machine?)" % stats["killed"])
     if stats["timed_out"]:
